@@ -5,6 +5,7 @@ package pub
 import (
 	"bytes"
 	"fmt"
+	"strings"
 	"sync"
 
 	"github.com/elliotchance/gedcom/v39"
@@ -33,6 +34,7 @@ type Result struct {
 	Names   []string          // in the order handed to the writer, duplicates kept
 	Files   map[string][]byte // last write wins
 	Writes  map[string]int
+	Kinds   map[string][]string // the component types handed to the writer under each name
 	Err     error
 	Panics  []string // panics while rendering a file (recovered inside the writer)
 	Panic   string   // panic in NewPublisher / Publish on the calling goroutine
@@ -77,6 +79,7 @@ func (w *writer) WriteFile(file *core.File) (err error) {
 	w.res.Names = append(w.res.Names, file.Name)
 	w.res.Files[file.Name] = buf.Bytes()
 	w.res.Writes[file.Name]++
+	w.res.Kinds[file.Name] = append(w.res.Kinds[file.Name], strings.TrimPrefix(fmt.Sprintf("%T", file.Component), "*html."))
 	w.mu.Unlock()
 	return err
 }
@@ -85,7 +88,7 @@ func (w *writer) WriteFile(file *core.File) (err error) {
 // panics in goroutines the library starts itself kill the process (callers write
 // a breadcrumb first).
 func Publish(doc *gedcom.Document, o Options) (res *Result) {
-	res = &Result{Files: map[string][]byte{}, Writes: map[string]int{}}
+	res = &Result{Files: map[string][]byte{}, Writes: map[string]int{}, Kinds: map[string][]string{}}
 	defer func() {
 		if p := recover(); p != nil {
 			res.Panic = fmt.Sprint(p)
